@@ -31,6 +31,9 @@ pub enum Op {
     GrpcClose { conn: u8 },
     Kill { node: u8 },
     Restart,
+    /// kill -9 a node and start it again at once (well inside the 15 s after which its peers would declare it dead);
+    /// no gRPC client connects to it afterwards: its former connections must still disappear everywhere
+    KillRestartQuick { node: u8 },
     /// two requests for one address back to back through one node (inside one 500 ms sync batch of the owner):
     /// update then deregister (end_registered = false) or deregister then register again (true)
     Flap { svc: u8, addr: u8, node: u8, weight: u8, end_registered: bool },
@@ -58,6 +61,22 @@ fn op_strategy(with_kill: bool) -> BoxedStrategy<Op> {
         v.push((2, Just(Op::Restart).boxed()));
     }
     proptest::strategy::Union::new_weighted(v).boxed()
+}
+
+/// a node that holds gRPC registrations is killed and restarted at once, in the middle of a generated schedule
+pub fn case_strategy_quick_restart() -> BoxedStrategy<Case> {
+    (0u8..3, 0u8..3, prop::collection::vec((0u8..3, 6u8..12), 1..4), prop::collection::vec(op_strategy(false), 3..12), prop::collection::vec(op_strategy(false), 3..12))
+        .prop_map(|(conn, node, regs, mut a, b)| {
+            a.push(Op::GrpcConnect { conn, node });
+            for (svc, addr) in regs {
+                a.push(Op::GrpcRegister { conn, svc, addr });
+            }
+            a.push(Op::Pause { ms: 1200 });
+            a.push(Op::KillRestartQuick { node });
+            a.extend(b);
+            Case { ops: a }
+        })
+        .boxed()
 }
 
 pub fn case_strategy(with_kill: bool) -> BoxedStrategy<Case> {
@@ -356,6 +375,7 @@ fn run_case_inner(case: &Case, c: &mut Cluster) -> CaseReport {
     let mut two_nodes_same_addr = false;
     let mut writers: BTreeMap<(usize, u8), BTreeSet<usize>> = BTreeMap::new();
     let mut killed_with_grpc = false;
+    let mut quiet_nodes: BTreeSet<usize> = BTreeSet::new();
     let mut err: Option<String> = None;
     for (opi, op) in case.ops.iter().enumerate() {
         match op {
@@ -476,8 +496,12 @@ fn run_case_inner(case: &Case, c: &mut Cluster) -> CaseReport {
             }
             Op::GrpcConnect { conn, node } => {
                 let k = *conn as usize % 3;
-                let nd = *node as usize % 3;
-                if down == Some(nd) || conns[k].is_some() {
+                let mut nd = *node as usize % 3;
+                // a node that was restarted by KillRestartQuick gets no gRPC client any more
+                if quiet_nodes.contains(&nd) {
+                    nd = (nd + 1) % 3;
+                }
+                if down == Some(nd) || conns[k].is_some() || quiet_nodes.contains(&nd) {
                     continue;
                 }
                 match GrpcConn::connect(c.nodes[nd].grpc, nd) {
@@ -549,6 +573,33 @@ fn run_case_inner(case: &Case, c: &mut Cluster) -> CaseReport {
                     c.kill(nd);
                     down = Some(nd);
                     labels.insert("node_killed".into());
+                }
+            }
+            Op::KillRestartQuick { node } => {
+                if down.is_none() {
+                    let nd = *node as usize % 3;
+                    for k in 0..3 {
+                        if conns[k].as_ref().map(|g| g.node == nd).unwrap_or(false) {
+                            if model.values().any(|(o, _)| *o == Owner::Grpc(k)) {
+                                killed_with_grpc = true;
+                                labels.insert("node_with_grpc_registrations_restarted_at_once".into());
+                            }
+                            if let Some(g) = conns[k].take() {
+                                drop(g.tx.send(GMsg::Close));
+                            }
+                            model.retain(|_, (o, _)| *o != Owner::Grpc(k));
+                        }
+                    }
+                    alive_flags[nd].store(false, Ordering::SeqCst);
+                    c.kill(nd);
+                    labels.insert("node_killed".into());
+                    if let Err(e) = c.start_node(nd).and_then(|_| c.wait_http(nd, 30)) {
+                        err = Some(format!("op #{}: node {} does not restart: {}", opi, nd + 1, e));
+                        break;
+                    }
+                    alive_flags[nd].store(true, Ordering::SeqCst);
+                    quiet_nodes.insert(nd);
+                    labels.insert("node_restarted".into());
                 }
             }
             Op::Restart => {
@@ -686,7 +737,7 @@ pub fn main(ctx: &Ctx) -> i32 {
     let work = work_dir(ctx);
     let fin = || Finish {
         level: "exploration",
-        rule: "schedules (10..36 ops) on real 3-node clusters: HTTP register (explicit weights 2..4; weight 1 means 'not given' to the handler) / deregister addressed to generated nodes over 3 services x 6 addresses, gRPC register / deregister of 6 further addresses through up to three held bi-stream connections attached to generated nodes, connection close, pauses, back-to-back update+deregister / deregister+register of one address (inside one sync batch), and (second class) kill -9 / restart of one node; HTTP heartbeats are kept going every 2 s for HTTP instances the model holds. Oracle: within 100 s after the last op (1) all live nodes return the same set (ip, port, healthy, enabled, weight) for every service and (2) that set is exactly the model's surviving registrations, healthy and enabled - instances of connections attached to a killed node, of closed connections and deregistered ones are gone, everything else present; weights are compared with the model only in schedules without a kill (after a kill a heartbeat may re-create an instance on the new responsible node and the server takes no weight from a beat). Saved replays are re-run first. non-trivial = one address written through two different nodes, or a node killed while holding gRPC registrations; distinct = hash of the schedule".into(),
+        rule: "schedules (10..36 ops) on real 3-node clusters: HTTP register (explicit weights 2..4; weight 1 means 'not given' to the handler) / deregister addressed to generated nodes over 3 services x 6 addresses, gRPC register / deregister of 6 further addresses through up to three held bi-stream connections attached to generated nodes, connection close, pauses, back-to-back update+deregister / deregister+register of one address (inside one sync batch), and (second class) kill -9 / restart of one node, (third class) kill -9 of a node that holds gRPC registrations followed by its immediate restart (inside the 15 s after which its peers would declare it dead) with no gRPC client connecting to it afterwards; HTTP heartbeats are kept going every 2 s for HTTP instances the model holds. Oracle: within 100 s after the last op (1) all live nodes return the same set (ip, port, healthy, enabled, weight) for every service and (2) that set is exactly the model's surviving registrations, healthy and enabled - instances of connections attached to a killed node, of closed connections and deregistered ones are gone, everything else present; weights are compared with the model only in schedules without a kill (after a kill a heartbeat may re-create an instance on the new responsible node and the server takes no weight from a beat). Saved replays are re-run first. non-trivial = one address written through two different nodes, or a node killed while holding gRPC registrations; distinct = hash of the schedule".into(),
         assumptions: vec![
             "message schedules between the nodes are sampled by real execution, not controlled ('delayed batch overtaking a remove' is reachable only by luck)".into(),
             "HTTP deregistration is only issued for addresses that are not connection-owned; gRPC addresses are written by one connection at a time (keeps the reference model exact)".into(),
@@ -726,6 +777,14 @@ pub fn main(ctx: &Ctx) -> i32 {
     }
     let w3 = work.clone();
     let fail = run_cases(ctx, &stats, (|| case_strategy(true)) as fn() -> _, n_kill, 5, 4, move |c| run_case(c, &w3, seed));
+    if fail.is_some() {
+        std::fs::remove_dir_all(&work).ok();
+        return finish(ctx, &stats, fin(), fail);
+    }
+    // third class: a node that holds gRPC registrations is killed and restarted at once
+    let w4 = work.clone();
+    let n_quick = ctx.tier.pick(5u32, 30u32);
+    let fail = run_cases(ctx, &stats, case_strategy_quick_restart as fn() -> _, n_quick, 5, 4, move |c| run_case(c, &w4, seed));
     std::fs::remove_dir_all(&work).ok();
     finish(ctx, &stats, fin(), fail)
 }
